@@ -147,7 +147,9 @@ def onReq (app : App) (s : St) (r : Req) : St :=
     let beginAuth := s.begun != some r.user
     let s1 := { s with username := some r.user, seq := s.seq + 1, auth := none }
     if beginAuth then
-      let s2 := { s1 with log := s1.log ++ [.begin r.user], nBegin := s1.nBegin + 1 }
+      -- the configuration (and authorized keys) are reloaded for this user: authentication is no longer begun for
+      -- anybody until begin_auth has answered
+      let s2 := { s1 with begun := none, log := s1.log ++ [.begin r.user], nBegin := s1.nBegin + 1 }
       if app.beginAsync then { s2 with tasks := s2.tasks ++ [⟨s1.seq, r.user, s1.nBegin, r⟩] }
       else afterBegin app s2 r.user r
     else createAuth app s1 r
